@@ -70,6 +70,11 @@ func corpus() [][]txPlan {
 		// read-only flags: not wrapped, callee cannot write
 		one(call(0, 15, try(L(call(1, 5, ifp(0, throw()), throw())), L(notify(7)), nil))),
 		one(call(0, 15, try(L(call(1, 5, put(0, 1))), none, nil))),
+		// notify-only / write-only callee flags still need the layer (events and writes are undone)
+		one(call(0, 15, notify(1), try(L(call(1, 13, notify(2), call(2, 9, notify(3)), throw())), L(notify(4)), nil))),
+		one(call(0, 15, put(1, 1), try(L(call(1, 7, put(1, 2), call(2, 3, put(1, 3)), throw())), L(put(2, 1)), nil))),
+		// nested handlers: the inner frame is in its catch block, the outer one is still a TRY
+		one(call(0, 15, try(L(try(L(throw()), L(call(1, 15, put(0, 6), notify(6), throw())), nil)), L(notify(7)), nil))),
 		// finally: normal path, exceptional path with rethrow to an outer catch
 		one(call(0, 15, try(L(put(0, 1)), nil, L(put(1, 1))), try(L(try(L(put(2, 1), throw()), nil, L(put(3, 1), notify(1)))), L(notify(2)), nil))),
 		// exception lost inside a finally block: ENDFINALLY jumps to EndOffset -1 (FAULT)
@@ -77,8 +82,8 @@ func corpus() [][]txPlan {
 		// KNOWN (finally-call-rollback): a callee that completes inside a finally block which runs
 		// for an exception is unloaded with commit=false; its writes and events are lost
 		one(call(0, 15, try(L(try(L(throw()), nil, L(call(1, 15, put(3, 3), notify(7)), put(3, 4)))), L(notify(8)), nil))),
-		// KNOWN (catch-finally-unwrapped): a call from a catch block that has a finally is not
-		// wrapped; the finally block sees the failed callee's write (key 0 of c0) and aborts
+		// replay of the defect fixed by db399c7: a call from a catch block that has a finally was
+		// not wrapped; the finally block saw the failed callee's write (key 0 of c0) and aborted
 		one(try(L(call(0, 15, del(0), try(L(throw()), L(call(1, 15, call(0, 15, put(0, 1)), throw())), L(ifp(0, abort()))))), none, nil)),
 		// GAS transfers: plain, with a callback that writes, with a callback that throws (FAULT),
 		// rolled back with the caller's catch
